@@ -7012,7 +7012,7 @@ func NewLsTLVRemoteIPv6RouterID(l *netip.Addr) *LsTLVRemoteIPv6RouterID {
 	return &LsTLVRemoteIPv6RouterID{
 		LsTLV: LsTLV{
 			Type:   LS_TLV_IPV6_REMOTE_ROUTER_ID,
-			Length: 4,
+			Length: 16,
 		},
 		IP: *l,
 	}
